@@ -719,8 +719,10 @@ def cache_status(kind, name):
     return "CMissing"
 
 
-def gen_ref(rng):
+def gen_ref(rng, clean=False):
     kind = rng.choice(KINDS)
+    if clean:
+        return {"kind": kind, "name": NAMES_BY_KIND[kind][0]}
     name = rng.choice(NAMES_BY_KIND[kind]) if rng.random() > 0.04 else ""
     return {"kind": kind, "name": name}
 
@@ -738,7 +740,8 @@ def gen_value(rng, mk, depth=0):
     if k < 0.7:
         return rng.choice([1, "static", True, None, 2.5, "", "12"])
     if k < 0.85:
-        return {rng.choice(["k", "n", "deep"]): gen_value(rng, mk, depth + 1) for _ in range(rng.randint(1, 2))}
+        return {rng.choice(["k", "n", "deep"]) + str(j): gen_value(rng, mk, depth + 1)
+                for j in range(rng.randint(1, 2))}
     return [gen_value(rng, mk, depth + 1) for _ in range(rng.randint(1, 2))]
 
 
@@ -749,6 +752,7 @@ def gen_workflow(rng, weird=False):
     if n >= 2 and rng.random() < 0.06:
         labels[rng.randrange(1, n)] = labels[0]                    # duplicate label
     mode = rng.choice(["good", "good", "good", "later", "self", "unknown", "mixed"])
+    clean = rng.random() < 0.45        # all Logic healthy, no injected syntax errors
     steps, planted = [], []
     for i in range(n):
         earlier = labels[:i]
@@ -778,39 +782,39 @@ def gen_workflow(rng, weird=False):
 
         st = {"label": labels[i]}
         if rng.random() < 0.8:
-            st["ref"] = gen_ref(rng)
+            st["ref"] = gen_ref(rng, clean)
         else:
             sw = {}
             r = rng.random()
-            if r < 0.85:
+            if r < 0.85 or clean:
                 sw["switchOn"] = "=" + mk("switchOn")()
             elif r < 0.92:
                 sw["switchOn"] = "=1 +"
             elif r < 0.96:
                 sw["switchOn"] = ""
-            if rng.random() < 0.95:
+            if rng.random() < 0.95 or clean:
                 cases = []
-                for _ in range(rng.randint(1, 3)):
-                    c = gen_ref(rng)
-                    c["case"] = rng.choice(["a", "b", "c", "a"])
-                    if rng.random() < 0.3:
+                for j in range(rng.randint(1, 3)):
+                    c = gen_ref(rng, clean)
+                    c["case"] = rng.choice(["a", "b", "c", "a"]) if not clean else "abc"[j]
+                    if rng.random() < 0.3 and not (clean and any(x.get("default") for x in cases)):
                         c["default"] = True
                     cases.append(c)
                 sw["cases"] = cases
             st["refSwitch"] = sw
         if rng.random() < 0.35:
-            st["skipIf"] = "=" + mk("skipIf")() if rng.random() > 0.05 else "=1 +"
+            st["skipIf"] = "=" + mk("skipIf")() if (rng.random() > 0.05 or clean) else "=1 +"
         if rng.random() < 0.25:
-            st["forEach"] = {"itemIn": ("=" + mk("forEach")()) if rng.random() > 0.06 else rng.choice(["=1 +", ""]),
-                             "inputKey": "item" if rng.random() > 0.05 else ""}
+            st["forEach"] = {"itemIn": ("=" + mk("forEach")()) if (rng.random() > 0.06 or clean) else rng.choice(["=1 +", ""]),
+                             "inputKey": "item" if (rng.random() > 0.05 or clean) else ""}
         if rng.random() < 0.75:
             st["inputs"] = {rng.choice(["a", "b", "name", "cfg"]) + str(j): gen_value(rng, mk("inputs"))
                             for j in range(rng.randint(1, 3))}
-            if rng.random() < 0.04:
+            if rng.random() < 0.04 and not clean:
                 st["inputs"]["broken"] = "=1 +"
         if rng.random() < 0.3:
             st["state"] = {rng.choice(["s", "t"]) + str(j): gen_value(rng, mk("state")) for j in range(rng.randint(1, 2))}
-            if rng.random() < 0.05:
+            if rng.random() < 0.05 and not clean:
                 st["state"]["broken"] = "=)"
         if weird and i == n - 1:
             st.setdefault("inputs", {})["weird"] = "=" + rng.choice(
